@@ -199,6 +199,71 @@ def shape_of(data):
     return (method, tuple(k for k, _ in headers), tuple(k for k, _ in form_pairs(query)), tuple(bkeys))
 
 
+FEATURES = ("method", "headers", "params", "body")
+
+
+def era_allowed(client, call):
+    """Per public call and per feature of the request: the version boundaries at which the documentation
+    (docs/changelog.md, docs/reference/switch/*.md) and the version tables let it change.
+      dauth  : 18.0.0 header order (changelog 2.2.1); edge_token `vendor_id` with API 7 = 13.0.0 (table)
+      aauth  : 18.0.0 header order; challenge(): `&device_auth_token` -> `device_auth_token` at 18.0.0 (changelog 3.0.0);
+               auth_*: `media_type` -> `auth_type` with API 5 = 19.0.0; auth_digital: ticket -> token at 15.0.0 (aauth.md);
+               auth_gamecard: challenge / challenge_src at 19.0.0 (aauth.md)
+      baas   : login `naCountry` required from 18.0.0 (changelog 3.0.0); authenticate `penneId`, update_presence `acdIndex` at 19.0.0
+      dragons: contents_authorization_token_for_aauth exists from 15.0.0 and loses its User-Agent at 18.0.0
+      five   : send_invitation `acd_index` at 19.0.0
+    Everything else must be identical for all 41 versions."""
+    A = {f: set() for f in FEATURES + ("result",)}
+    if client == "dauth":
+        A["headers"] = {1800}
+        if call == "edge_token": A["body"] = {1300}
+    elif client == "aauth":
+        A["headers"] = {1800}
+        if call == "challenge": A["body"] = {1800}
+        elif call == "auth_digital": A["body"] = {1500, 1900}; A["result"] = {1500}
+        else: A["body"] = {1900}
+    elif client == "baas":
+        if call == "login": A["body"] = {1800}; A["result"] = {1800}
+        elif call in ("authenticate", "update_presence"): A["body"] = {1900}
+    elif client == "dragons":
+        if call == "contents_authorization_token_for_aauth": A["headers"] = {1800}; A["result"] = {1500}
+    elif client == "five":
+        if call == "send_invitation": A["body"] = {1900}
+    return A
+
+
+def era_required(client, call, tag):
+    """changes the changelog names explicitly: they must happen exactly there"""
+    R = []
+    if client in ("dauth", "aauth"): R.append(("headers", 1800))
+    if client == "aauth" and call == "challenge": R.append(("body", 1800))
+    if client == "baas" and call == "login" and tag == "app-country": R.append(("body", 1800))
+    return R
+
+
+def features_of(res):
+    """per request: {feature: value}; or the exception name"""
+    if not res["ok"]:
+        return ("err", exc_name(res["exc"]))
+    out = []
+    for cap in res["caps"]:
+        m, h, p, b = shape_of(cap["data"])
+        out.append({"method": m, "headers": h, "params": p, "body": b})
+    return ("ok", out)
+
+
+def era_diff(fa, fb):
+    """the features in which two results differ"""
+    if fa[0] != fb[0] or (fa[0] == "err" and fa[1] != fb[1]): return ["result"]
+    if fa[0] == "err": return []
+    if len(fa[1]) != len(fb[1]): return ["result"]
+    d = []
+    for x, y in zip(fa[1], fb[1]):
+        for f in FEATURES:
+            if x[f] != y[f] and f not in d: d.append(f)
+    return d
+
+
 def model_line(case, res, kind="call"):
     """the driver line for this case; oracle inputs (mac, encrypted ticket) are read back from the captured request"""
     client, devid, ver, cfg, call, args = case["client"], case["devid"], case["ver"], case["cfg"], case["call"], case["args"]
